@@ -797,6 +797,7 @@ func main() {
 	f.WriteString(mutexFacts(tr, "dialers", "mu", "m"))
 	f.WriteString(goroutineFacts(fb, []string{"Session.writeCompressed", "Session.readCompressed"}))
 	f.WriteString(allocFacts("sessionAllocSites", map[string]*pkg{"fbb": fb, "lzhuf": lz}))
+	f.WriteString(ardopConnFacts(ar))
 	f.WriteString("\nend Wl2k.Gen\n")
 	if err := os.WriteFile(filepath.Join(out, "Facts.lean"), []byte(f.String()), 0o644); err != nil {
 		fatal("%v", err)
